@@ -148,14 +148,44 @@ def harness_src_stamp():
         open(stamp, 'w').write(cur)
 
 
-def build_harness():
+def build_harness(per_profile=False):
+    """Build the harness in both profiles. per_profile=True: build every profile and return {name: (ok, output)}."""
+    res = {}
     with Lock('cargo'):
         harness_src_stamp()
         for name, flags, _ in PROFILES:
             rc, out = sh(['cargo', 'build', '--offline'] + flags, HARN)
-            if rc != 0:
+            res[name] = (rc == 0, out)
+            if rc != 0 and not per_profile:
                 return False, f'[{name}]\n' + out[-6000:]
+    if per_profile:
+        return res
     return True, ''
+
+
+def const_eval_failure(out):
+    """The harness evaluates crate functions in const items (const-vs-runtime routes of C15, impl_modulus! constants).
+    If the CRATE's code panics there (E0080 with a frame inside /repo's src) the build error is a failing input of the
+    crate, not a machinery problem: return what failed (const item, message, crate source frames, the diagnostic)."""
+    if 'error[E0080]' not in out:
+        return None
+    i = out.index('error[E0080]')
+    diag = out[i:i + 4000]
+    frames = sorted(set(re.findall(re.escape(REPO.rstrip('/')) + r'/(src/[\w/]+\.rs):(\d+)', diag)))
+    if not frames:
+        return None
+    m = re.search(r'evaluation of `([^`]+)` failed', diag)
+    msg = diag.split('\n')[0]
+    return dict(const_item=m.group(1) if m else None, message=msg, crate_frames=[f'{f}:{l}' for f, l in frames],
+                files=sorted({f for f, _ in frames}), diagnostic=diag)
+
+
+def anchor_files(pid):
+    for l in open(os.path.join(VERIF, 'properties.jsonl')):
+        p = json.loads(l)
+        if p['id'] == pid:
+            return set((p.get('anchors') or {}).get('files', []))
+    return set()
 
 
 STREAM_TIMEOUT = int(os.environ.get('VERIF_STREAM_TIMEOUT', '600'))
@@ -267,10 +297,30 @@ def main():
             log('model driver does not build:\n' + out[-3000:])
 
     log('building harness (2 profiles) against ' + REPO)
-    ok, out = build_harness()
-    if not ok:
-        print(f'ERROR harness does not build against the current tree\n{out}')
-        sys.exit(2)
+    built = build_harness(per_profile=True)
+    const_fail = None
+    if not all(ok for ok, _ in built.values()):
+        bad = {n: o for n, (ok, o) in built.items() if not ok}
+        cfs = {n: const_eval_failure(o) for n, o in bad.items()}
+        if any(c is None for c in cfs.values()) or not built['release'][0]:
+            # not (only) a const-evaluation panic inside the crate, or no profile left to run
+            cfail = next((c for c in cfs.values() if c), None)
+            if cfail and (set(cfail["files"]) & anchor_files(pid)):
+                # compile-time evaluation of the crate's own code panics on the harness' constants, in this property's anchor files
+                os.makedirs(os.path.join(VERIF, 'replays'), exist_ok=True)
+                rpath = os.path.join(VERIF, 'replays', f'{pid}-{tier}-{seed}-consteval.json')
+                json.dump(dict(property=pid, violation=True, kind='const evaluation of crate code panics on a valid constant input',
+                               **cfail, replay_cmd='cd harness && cargo build --offline --release && cargo build --offline --profile dbgchk'), open(rpath, 'w'), indent=1)
+                print(f'VIOLATION property={pid} replay={rpath}')
+                sys.exit(1)
+            n, o = next(iter(bad.items()))
+            print(f'ERROR harness does not build against the current tree\n[{n}]\n{o[-6000:]}')
+            sys.exit(2)
+        # only the dbgchk profile fails, and it fails because a debug assertion / overflow check of the crate fires during
+        # const evaluation: run the lines on the release build alone; the const-evaluation diagnostic is the fallback replay
+        const_fail = next(iter(cfs.values()))
+        const_fail['profile'] = next(iter(cfs))
+        log(f"profile {const_fail['profile']}: const evaluation of crate code panics ({const_fail['message']}); running the release profile only")
 
     # ---- operations
     if args.replay:
@@ -292,13 +342,18 @@ def main():
 
     impl = {}
     for name, _, d in PROFILES:
+        if const_fail and name == const_fail['profile']:
+            continue
         impl[name] = run_parallel(impl_cmd(d), lines, 8)
+    if const_fail:
+        # the failed profile cannot run; profile-specific model outputs are compared for the release build only
+        impl[const_fail['profile']] = None
     model = run_parallel(model_cmd(), lines, 16) if model_bin_ok else ['model-unavailable'] * len(lines)
 
     # machinery errors: an op the harness or the driver does not know / cannot parse is never a pass
     MACH = ('unknown-op', 'bad-args', 'unsupported-width', 'model-unavailable', 'empty', 'crash-model')
     mach = [(l, impl['release'][i], model[i]) for i, l in enumerate(lines)
-            if impl['release'][i] in MACH or impl['dbgchk'][i] in MACH or model[i].split(' ;; ')[0] in MACH]
+            if impl['release'][i] in MACH or (impl['dbgchk'] and impl['dbgchk'][i] in MACH) or model[i].split(' ;; ')[0] in MACH]
     if mach and model_bin_ok:
         print(f'ERROR machinery: {len(mach)} line(s) not executable by harness or model, e.g. {mach[:3]}')
         sys.exit(3)
@@ -316,6 +371,8 @@ def main():
             l1, l0 = m.split(' ;; ', 1)
         l1_all = l1
         for name, _, _ in PROFILES:
+            if impl[name] is None:
+                continue
             o = impl[name][i]
             # a profile-specific model output: `<release output> ## <dbgchk output>` (debug assertions /
             # overflow checks make the two builds differ only where the model says so)
@@ -342,7 +399,7 @@ def main():
             elif c0 is not None and oc != c1 and ' || ' not in c0:
                 # behaviour is right here but the limb-level model no longer mirrors the code
                 hookbreak.append(dict(line=line, impl=o, model=l1, spec=l0, profile=name, kind='L1 model differs from implementation (implementation agrees with spec L0)'))
-        if impl['release'][i] != impl['dbgchk'][i]:
+        if impl['dbgchk'] and impl['release'][i] != impl['dbgchk'][i]:
             profdiff += 1
 
     nontriv = getattr(gmod, 'nontrivial', nontrivial_default)
@@ -382,6 +439,14 @@ def main():
                        hook_disagreements=hookbreak[:25], lean_log=po['log'][-3000:], seed=seed, tier=tier,
                        searched_lines=len(lines)), open(rpath, 'w'), indent=1)
         msgs.append(f'VIOLATION property={pid} replay={rpath} no-failing-input-found')
+        rc = 1
+    if const_fail and rc == 0 and (set(const_fail['files']) & anchor_files(pid)):
+        # no run-time line contradicts the property in the release build, but the crate's code (in this property's anchor
+        # files) panics when it is const-evaluated with debug assertions / overflow checks on: that input is the replay
+        rpath = os.path.join(VERIF, 'replays', f'{pid}-{tier}-{seed}-consteval.json')
+        json.dump(dict(property=pid, violation=True, kind='const evaluation of crate code panics on a valid constant input (debug assertions / overflow checks on)',
+                       **const_fail, seed=seed, tier=tier, searched_lines=len(lines)), open(rpath, 'w'), indent=1)
+        msgs.append(f'VIOLATION property={pid} replay={rpath}')
         rc = 1
     for fid, hits in sorted(known_hits.items()):
         f = next(x for x in findings if x['id'] == fid)
